@@ -123,12 +123,15 @@ func buildMatrix(ct *contT, v val, r, c int, pat []int) ad.Matrix {
 }
 
 // receiver kinds: the state of the object a decoder is asked to overwrite
-//   fresh   zero value of the type
-//   used    previously used 2x2 matrix / 2-vector (some entries zero)
-//   smaller 1x1 matrix / 1-vector
-//   larger  4x4 matrix / 5-vector, every entry non-zero
-//   same    the shape of the object that is decoded, every entry non-zero junk
-var extraRecvKinds = []string{"smaller", "larger", "same"}
+//
+//	fresh   zero value of the type
+//	used    previously used 2x2 matrix / 2-vector (some entries zero)
+//	smaller 1x1 matrix / 1-vector
+//	larger  4x4 matrix / 5-vector, every entry non-zero
+//	same    the shape of the object that is decoded, every entry non-zero junk
+//	view    a view: matrices the 2x2 block T().Slice(1,3,1,3) of a full 3x3 matrix (transposed, both offsets and both strides differ from a compact matrix),
+//	        vectors the Slice(1,3) of a full 4-vector
+var extraRecvKinds = []string{"smaller", "larger", "same", "view"}
 
 func recvKind(used bool) string {
 	if used {
@@ -151,6 +154,11 @@ func newReceiver(ct *contT, like any, kind string, dims []int) any {
 		if !ct.Matrix {
 			r = 5
 		}
+	case "view":
+		r, c, full = 3, 3, true
+		if !ct.Matrix {
+			r = 4
+		}
 	case "same":
 		full = true
 		if ct.Matrix && len(dims) == 2 {
@@ -165,14 +173,20 @@ func newReceiver(ct *contT, like any, kind string, dims []int) any {
 			u.At(i).SetInt64(int64(7 + i))
 		}
 		if ct.St.Real && !ct.Sparse && r > 0 && kind != "used" {
-			u.At(r - 1).(ad.MagicScalar).Alloc(1, 1)
-			u.At(r - 1).(ad.MagicScalar).SetDerivative(0, 5)
+			u.At(r-1).(ad.MagicScalar).Alloc(1, 1)
+			u.At(r-1).(ad.MagicScalar).SetDerivative(0, 5)
 		}
 		return u
 	}
 	if t.Kind() != reflect.Ptr { // dense vectors are slices
 		p := reflect.New(t)
-		if kind != "fresh" {
+		if kind == "view" {
+			if w := reflect.ValueOf(junkVec().Slice(1, 3)); w.Type() == t {
+				p.Elem().Set(w)
+			} else {
+				p.Elem().Set(reflect.ValueOf(junkVec()))
+			}
+		} else if kind != "fresh" {
 			p.Elem().Set(reflect.ValueOf(junkVec()))
 		}
 		return p.Interface()
@@ -199,9 +213,24 @@ func newReceiver(ct *contT, like any, kind string, dims []int) any {
 			u.At(0, 0).(ad.MagicScalar).Alloc(1, 1)
 			u.At(0, 0).(ad.MagicScalar).SetDerivative(0, 5)
 		}
+		if kind == "view" {
+			// (views are C10's subject: if this one cannot be built or is not of the
+			// reader's type, the underlying matrix is the receiver)
+			var w ad.Matrix
+			if guard("view", func() { w = u.T().Slice(1, 3, 1, 3) }) == "" && w != nil && reflect.TypeOf(w) == t {
+				return w
+			}
+		}
 		return u
 	}
-	return junkVec()
+	u := junkVec()
+	if kind == "view" {
+		var w ad.Vector
+		if guard("view", func() { w = u.Slice(1, 3) }) == "" && w != nil && reflect.TypeOf(w) == t {
+			return w
+		}
+	}
+	return u
 }
 
 func derefReceiver(p any) any {
